@@ -4,6 +4,7 @@ import Andes.Model.IslandDriver
 import Andes.Model.SolverCacheDriver
 import Andes.Model.DiscreteDriver
 import Andes.Model.NewtonDriver
+import Andes.Model.AssembleDriver
 /-! One case per input line, one canonical output line; the first word selects the model. -/
 
 def handle (line : String) : String :=
@@ -16,6 +17,7 @@ def handle (line : String) : String :=
   | "cli" :: args => Andes.Newton.handleCli args
   | "disc" :: op :: args => Andes.Discrete.handleDisc op args
   | "slv" :: args => Andes.SolverCache.handleSlv args | "pfs" :: args => Andes.SolverCache.handlePfs args | "tdi" :: args => Andes.SolverCache.handleTdi args
+  | "pfg" :: args => Andes.PFlow.handlePfg args | "pfu" :: args => Andes.PFlow.handlePfu args
   | "island" :: args => Andes.Island.handleIsland args
   | _ => "bad-op"
 
